@@ -719,6 +719,10 @@ class ListenerRequestHandler(BaseHTTPRequestHandler):
         if cim_error is not None:
             self.send_header("CIMError", cim_error)
         if cim_error_details is not None:
+            # The details may be a multi-line message (e.g. from the XML
+            # parser); a header value must not contain line breaks.
+            cim_error_details = cim_error_details.replace('\r', ' '). \
+                replace('\n', ' ')
             self.send_header("CIMErrorDetails", cim_error_details)
         if headers is not None:
             for header, value in headers:
